@@ -46,6 +46,9 @@ func (g *G) opBySize(target uint64) {
 	o := g.observe(func() ([]engine.WorkSpaceInfo, error) { return g.sk.ConfigureBySize(target, false, false) })
 	op := fmt.Sprintf("bysize %d", target)
 	g.h.Emit(op, o.String()+" "+g.stateStr())
+	if len(o.created) > 0 && len(o.sel) > len(o.created) {
+		g.h.Sample(op + " => " + o.String())
+	}
 	what := op
 	g.sizeOracles(what, u64(target), o, before, func(space) bool { return true }, allDirs(g.kdirs[:1]))
 	// below the minimum: must be rejected; beyond free disk: what the indexed spaces cannot cover exceeds the free bytes
@@ -128,6 +131,9 @@ func (g *G) opByPath(as []alloc) {
 	}
 	op := "bypath " + strings.Join(toks, " ")
 	g.h.Emit(op, o.String()+" "+g.stateStr())
+	if len(as) > 1 && len(o.created) > 0 {
+		g.h.Sample(op + " => " + o.String())
+	}
 	g.pathOracles(op, as, o)
 	g.remember(op, o)
 	if dupDirs(ds) {
